@@ -242,12 +242,14 @@ def cone(coqdir, root):
             continue
         seen.append(f)
         txt = open(os.path.join(coqdir, f)).read()
-        for m in re.finditer(r"From\s+CR\s+Require\s+(?:Import|Export)?\s*([^.]*(?:\.[A-Za-z_][^.\s]*)*)\.\s", txt):
+        txt = strip_comments(txt)
+        for m in re.finditer(r"From\s+CR\s+Require\s+(?:Import\b|Export\b)?\s*(.*?)\.(?=\s)", txt, re.S):
             for mod in m.group(1).split():
                 todo.append(mod.replace(".", "/") + ".v")
-        for m in re.finditer(r"Require\s+(?:Import|Export)?\s+((?:CR\.[A-Za-z0-9_.]+\s*)+)\.\s", txt):
+        for m in re.finditer(r"(?<!CR\s)Require\s+(?:Import\b|Export\b)?\s*(.*?)\.(?=\s)", txt, re.S):
             for mod in m.group(1).split():
-                todo.append(mod[3:].replace(".", "/") + ".v")
+                if mod.startswith("CR."):
+                    todo.append(mod[3:].replace(".", "/") + ".v")
     return sorted(seen)
 
 
